@@ -433,12 +433,9 @@ func getEventKey(seed uint32, event *mocrelay.Event) (int64, bool) {
 		idx := slices.IndexFunc(event.Tags, func(t mocrelay.Tag) bool {
 			return len(t) >= 1 && t[0] == "d"
 		})
-		if idx < 0 {
-			return 0, false
-		}
-
+		// an addressable event without d tag has the d value ""
 		d := ""
-		if len(event.Tags[idx]) > 1 {
+		if idx >= 0 && len(event.Tags[idx]) > 1 {
 			d = event.Tags[idx][1]
 		}
 
